@@ -2,7 +2,8 @@
    dec_ref_pic_marking) written as an ENCODER from the structure to its bits, relative to the activated
    PPS / SPS and the NAL header; and the conditions under which the structure is a conforming header
    (wf_slice).  Two coded values are not kept by the library's structure and are extra arguments:
-   slice_alpha_c0_offset_div2 and slice_beta_offset_div2 (`ab`).  slice_qs_delta is recovered from the
+   slice_alpha_c0_offset_div2 and slice_beta_offset_div2 (`ab`); and which of the two codings of an empty
+   reference list modification was used (`em`, one flag per list).  slice_qs_delta is recovered from the
    stored SliceQS (= 26 + pic_init_qs_minus26 + slice_qs_delta, 7.4.3). *)
 From H264 Require Import Base.Prelude Base.Bits Spec.Golomb Spec.SyntaxSps Model.Nal Model.Sps Model.Context Model.Pps Model.Slice.
 Local Open Scope N_scope.
@@ -42,11 +43,20 @@ Definition wf_poc_lsb (sp : sps) (pp : pps) (fp : field_pic) (poc : option poc_l
 Definition enc_mod (m : modification) : list bool :=
   match m with ModSubtract v => ue 0 ++ ue v | ModAdd v => ue 1 ++ ue v | ModLongTermRef v => ue 2 ++ ue v end.
 Definition mod_val (m : modification) : N := match m with ModSubtract v | ModAdd v | ModLongTermRef v => v end.
-Definition enc_mod_list (l : list modification) : list bool :=
-  match l with [] => flag false | _ => flag true ++ concat (map enc_mod l) ++ ue 3 end.
+(* ref_pic_list_modification_flag_lX = 0, or 1 followed by the operations and the terminating idc 3; the empty list
+   has both codings (flag 0, or flag 1 and idc 3 at once) - `e` chooses the second *)
+Definition enc_mod_list (e : bool) (l : list modification) : list bool :=
+  match l with
+  | [] => if e then flag true ++ ue 3 else flag false
+  | _ => flag true ++ concat (map enc_mod l) ++ ue 3
+  end.
 
-Definition enc_rpl (r : ref_pic_list_mods) : list bool :=
-  match r with RplI => [] | RplP a => enc_mod_list a | RplB a b => enc_mod_list a ++ enc_mod_list b end.
+Definition enc_rpl (em : bool * bool) (r : ref_pic_list_mods) : list bool :=
+  match r with
+  | RplI => []
+  | RplP a => enc_mod_list (fst em) a
+  | RplB a b => enc_mod_list (fst em) a ++ enc_mod_list (snd em) b
+  end.
 
 Definition wf_rpl (fam : slice_family) (r : ref_pic_list_mods) : Prop :=
   match fam, r with
@@ -146,7 +156,7 @@ Definition enc_deblock (pp : pps) (idc : N) (ab : Z * Z) : list bool :=
   else [].
 
 (* slice_header( ) for NAL header byte hdr, activated PPS pp and SPS sp *)
-Definition enc_slice_header (hdr : byte) (pp : pps) (sp : sps) (h : slice_header) (ab : Z * Z) : list bool :=
+Definition enc_slice_header (hdr : byte) (pp : pps) (sp : sps) (h : slice_header) (ab : Z * Z) (em : bool * bool) : list bool :=
   let f := family (sh_slice_type h) in
   ue (first_mb_in_slice h) ++ ue (slice_type_id (sh_slice_type h)) ++ ue (pic_parameter_set_id pp) ++
   (match colour_plane h with Some v => u 2 v | None => [] end) ++
@@ -157,7 +167,7 @@ Definition enc_slice_header (hdr : byte) (pp : pps) (sp : sps) (h : slice_header
   (match redundant_pic_cnt h with Some v => ue v | None => [] end) ++
   (match direct_spatial_mv_pred_flag h with Some b => flag b | None => [] end) ++
   enc_nra f (sh_num_ref_idx_active h) ++
-  enc_rpl (ref_pic_list_modification h) ++
+  enc_rpl em (ref_pic_list_modification h) ++
   (match sh_pred_weight_table h with Some t => enc_pwt (spec_mono sp) t | None => [] end) ++
   (match sh_dec_ref_pic_marking h with Some d => enc_drm d | None => [] end) ++
   (match cabac_init_idc h with Some v => ue v | None => [] end) ++
